@@ -30,7 +30,7 @@ impl ItemSourceKind {
                 quote_spanned!(span=> (self.#member))
             }
             ItemSourceKind::Enum => {
-                let ident = field.make_ident("_self");
+                let ident = field.make_ident("__self");
                 quote_spanned!(span=> (*#ident))
             }
         }
@@ -40,10 +40,10 @@ impl ItemSourceKind {
         match self {
             ItemSourceKind::Struct => {
                 let member = field.member();
-                quote_spanned!(span=> (this.#member))
+                quote_spanned!(span=> (__this.#member))
             }
             ItemSourceKind::Enum => {
-                let ident = field.make_ident("_this");
+                let ident = field.make_ident("__this");
                 quote_spanned!(span=> (*#ident))
             }
         }
@@ -53,10 +53,10 @@ impl ItemSourceKind {
         match self {
             ItemSourceKind::Struct => {
                 let member = field.member();
-                quote_spanned!(span=> (other.#member))
+                quote_spanned!(span=> (__other.#member))
             }
             ItemSourceKind::Enum => {
-                let ident = field.make_ident("_other");
+                let ident = field.make_ident("__other");
                 quote_spanned!(span=> (*#ident))
             }
         }
@@ -151,7 +151,7 @@ fn build_compare_op(
                     const _: () = {
                         #[allow(clippy::double_parens)]
                         #[allow(unused_parens)]
-                        fn _f #impl_g (this: &#this_ty) #wheres {
+                        fn _f #impl_g (__this: &#this_ty) #wheres {
                             #body
                         }
                     };
@@ -225,12 +225,12 @@ fn build_partial_eq_body(
             for variant in variants {
                 let use_bounds = variant.hattrs.push_bounds_to(use_bounds, kind, wcb);
                 let body = build_from_fields(&variant.fields, use_bounds, wcb)?;
-                let pat_this = variant.make_pat("_self");
-                let pat_other = variant.make_pat("_other");
+                let pat_this = variant.make_pat("__self");
+                let pat_other = variant.make_pat("__other");
                 arms.push(quote!((#pat_this, #pat_other) => { #body }))
             }
             quote! {
-                match (self, other) {
+                match (self, __other) {
                     #(#arms)*
                     _ => false,
                 }
@@ -238,7 +238,7 @@ fn build_partial_eq_body(
         }
     };
     Ok(quote! {
-        fn eq(&self, other: &Self) -> bool {
+        fn eq(&self, __other: &Self) -> bool {
             #body
         }
     })
@@ -375,11 +375,11 @@ fn build_eq_body(
             for variant in variants {
                 let use_bounds = variant.hattrs.push_bounds_to(use_bounds, kind, wcb);
                 let body = build_from_fields(&variant.fields, use_bounds, wcb)?;
-                let pat_this = variant.make_pat_with_self_path("_this", source.ident());
+                let pat_this = variant.make_pat_with_self_path("__this", source.ident());
                 arms.push(quote!(#pat_this => { #body }));
             }
             Ok(quote! {
-                match this {
+                match __this {
                     #(#arms)*
                     _ => { }
                 }
@@ -463,7 +463,7 @@ fn build_partial_ord_body(
             body.extend(quote! {
                 match #expr {
                     ::core::option::Option::Some(::core::cmp::Ordering::Equal) => {}
-                    o => return o,
+                    __o => return __o,
                 }
             });
             use_bounds = field
@@ -485,24 +485,24 @@ fn build_partial_ord_body(
             for variant in variants {
                 let use_bounds = variant.hattrs.push_bounds_to(use_bounds, kind, wcb);
                 let body = build_from_fields(&variant.fields, use_bounds, wcb)?;
-                let pat_this = variant.make_pat("_self");
-                let pat_other = variant.make_pat("_other");
+                let pat_this = variant.make_pat("__self");
+                let pat_other = variant.make_pat("__other");
                 arms.push(quote!((#pat_this, #pat_other) => { #body }));
             }
             let to_index_fn = build_to_index_fn(variants);
             quote! {
-                match (self, other) {
+                match (self, __other) {
                     #(#arms)*
-                    (this, other) => {
+                    (__this, __other) => {
                         #to_index_fn
-                        ::core::cmp::PartialOrd::partial_cmp(&to_index(this), &to_index(other))
+                        ::core::cmp::PartialOrd::partial_cmp(&__to_index(__this), &__to_index(__other))
                     },
                 }
             }
         }
     };
     Ok(quote! {
-        fn partial_cmp(&self, other: &Self) -> ::core::option::Option<::core::cmp::Ordering> {
+        fn partial_cmp(&self, __other: &Self) -> ::core::option::Option<::core::cmp::Ordering> {
             #body
         }
     })
@@ -601,7 +601,7 @@ fn build_ord_body(
             body.extend(quote! {
                 match #expr {
                     ::core::cmp::Ordering::Equal => {}
-                    o => return o,
+                    __o => return __o,
                 }
             });
             use_bounds = field
@@ -624,24 +624,24 @@ fn build_ord_body(
             for variant in variants {
                 let use_bounds = variant.hattrs.push_bounds_to(use_bounds, kind, wcb);
                 let body = build_from_fields(&variant.fields, use_bounds, wcb)?;
-                let pat_this = variant.make_pat("_self");
-                let pat_other = variant.make_pat("_other");
+                let pat_this = variant.make_pat("__self");
+                let pat_other = variant.make_pat("__other");
                 arms.push(quote!((#pat_this, #pat_other) => { #body }));
             }
             let to_index_fn = build_to_index_fn(variants);
             quote! {
-                match (self, other) {
+                match (self, __other) {
                     #(#arms)*
-                    (this, other) => {
+                    (__this, __other) => {
                         #to_index_fn
-                        ::core::cmp::Ord::cmp(&to_index(this), &to_index(other))
+                        ::core::cmp::Ord::cmp(&__to_index(__this), &__to_index(__other))
                     },
                 }
             }
         }
     };
     Ok(quote! {
-        fn cmp(&self, other: &Self) -> ::core::cmp::Ordering {
+        fn cmp(&self, __other: &Self) -> ::core::cmp::Ordering {
             #body
         }
     })
@@ -728,7 +728,7 @@ fn build_hash_body(
             for variant in variants {
                 let use_bounds = variant.hattrs.push_bounds_to(use_bounds, kind, wcb);
                 let body = build_from_fields(&variant.fields, use_bounds, wcb)?;
-                let pat_self = variant.make_pat("_self");
+                let pat_self = variant.make_pat("__self");
                 arms.push(quote!(#pat_self => { #body }));
             }
             quote! {
@@ -740,7 +740,7 @@ fn build_hash_body(
         }
     };
     Ok(quote! {
-        fn hash<__H: ::core::hash::Hasher>(&self, state: &mut __H) {
+        fn hash<__H: ::core::hash::Hasher>(&self, __state: &mut __H) {
             #body
         }
     })
@@ -767,7 +767,7 @@ fn build_hash_expr(
                     hash: impl ::core::ops::Fn(&__T, &mut __H)) {
                     hash(this, state)
                 }
-                #fn_ident(&#this, state, #by)
+                #fn_ident(&#this, __state, #by)
             }
         });
     }
@@ -799,7 +799,7 @@ fn build_hash_expr(
     }
 
     *field_used = true;
-    Ok(quote_spanned!(field.span()=> ::core::hash::Hash::hash(&(#this), state);))
+    Ok(quote_spanned!(field.span()=> ::core::hash::Hash::hash(&(#this), __state);))
 }
 
 pub(super) struct HelperAttributesForCompareOp {
@@ -1117,7 +1117,7 @@ impl Template {
 
     fn build_hash_stmt(&self, this: TokenStream) -> TokenStream {
         let this = self.apply(this);
-        quote_spanned!(this.span()=> ::core::hash::Hash::hash(&(#this), state);)
+        quote_spanned!(this.span()=> ::core::hash::Hash::hash(&(#this), __state);)
     }
 }
 fn build_to_index_fn(variants: &[VariantEntry]) -> TokenStream {
@@ -1127,8 +1127,8 @@ fn build_to_index_fn(variants: &[VariantEntry]) -> TokenStream {
         arms.push(quote!((#pat) => #index,));
     }
     quote! {
-        let to_index = |this: &Self| -> usize {
-            match this {
+        let __to_index = |__this: &Self| -> usize {
+            match __this {
                 #(#arms)*
                 _ => ::core::unreachable!(),
             }
